@@ -109,6 +109,13 @@ CHECKS.update({
    note="Trusted: AddressSanitizer/UBSan and Qt's own Q_ASSERTs (the library is compiled without QT_NO_DEBUG) as the oracle; PCRE match limits make pathological expressions fail rather than hang."),
 })
 
+CHECKS.update({
+ "C19": dict(engine="procx", level=MC, design="§7 C19",
+   technique="exhaustive enumeration of the configuration space (full product of INI key values; all one-line configure() argument tuples) with one real child process per configuration and run, outputs captured on pipes / ptys and files read back, against a composed reference model; plus exhaustive enumeration of install/restore/foreign-handler histories up to the depth bound on the real functions against the protocol's reference model",
+   text="Every combination of the INI keys over reduced value domains and every one-line configure() tuple is run as a real process that logs a fixed six-message stream through Qt's macros (two runs when a file is configured); per stream the delivered lines must be exactly the messages passing the configured filters, once per configured output, in order, formatted as configured, nothing on unconfigured streams, colour only on terminals when asked, file text = console text minus colour codes. Every history of install(A)/install(B)/restore/foreign(F1)/foreign(F2) up to the depth bound is executed on the real handler functions and observed by emitting a message after every step.",
+   note="Trusted: the Python rule/regex reference; PrettyFormatter output matched structurally; accept-set {original, interposed} when a foreign handler was installed between two installs."),
+})
+
 PENDING = {}
 
 def main():
@@ -141,7 +148,7 @@ def main():
             {"name": "seqx", "path": "engine/seqx", "serves_properties": sorted(k for k, v in CHECKS.items() if v["engine"] == "seqx"), "kind_free_text": "bounded-exhaustive explorers over operation sequences / inputs of the real classes with reference models"},
             {"name": "vfs", "path": "engine/vfs", "serves_properties": sorted(k for k, v in CHECKS.items() if v["engine"] == "vfs"), "kind_free_text": "history / crash-point / fault explorer over the real file sinks with interposed libc, virtual clock and mtimes"},
             {"name": "vsched", "path": "engine/vsched", "serves_properties": sorted(k for k, v in CHECKS.items() if v["engine"] == "vsched"), "kind_free_text": "preemption-bounded stateless schedule explorer over the real threading code with Qt threading names retargeted to a serialising scheduler"},
-            {"name": "procx", "path": "engine/procx", "serves_properties": sorted(k for k, v in CHECKS.items() if v["engine"] == "procx"), "kind_free_text": "enumerated child processes (fatal termination, configuration front-ends)"},
+            {"name": "procx", "path": "engine/procx", "serves_properties": sorted(k for k, v in CHECKS.items() if v["engine"] == "procx"), "kind_free_text": "enumerated child processes (fatal termination, configuration front-ends, real-Qt shutdown confirmation)"},
         ],
         "checks": checks,
         "not_applicable": na,
